@@ -41,6 +41,8 @@ hmod!(pub(crate) c09t, "c09t.rs");
 #[cfg(not(feature = "shuttle"))]
 hmod!(pub(crate) c10, "c10.rs");
 #[cfg(not(feature = "shuttle"))]
+hmod!(pub(crate) c13, "c13.rs");
+#[cfg(not(feature = "shuttle"))]
 hmod!(pub(crate) c15, "c15.rs");
 #[cfg(not(feature = "shuttle"))]
 hmod!(pub(crate) c17, "c17.rs");
